@@ -229,7 +229,7 @@ class Controller(object):
                 i += 1
 
             if D_rank != num_directions:
-                raise RuntimeError("Unable to generate suitable initial directions")
+                return ExitInformation(EXIT_LINALG_ERROR, "Unable to generate suitable initial directions")
 
             # we have a L.I set of interpolation points
             for k in range(0,self.n()):
